@@ -1,6 +1,6 @@
 (* C15 -- bench reader and writer are faithful (line-AST level).  Statements only; proofs in Proofs/BenchProofs.v. *)
 From stdpp Require Import strings gmap sets.
-From CG Require Import Model.Bench Model.BenchSpec Model.Lint Proofs.BenchProofs.
+From CG Require Import Model.Bench Model.BenchSpec Model.Lint Proofs.BenchProofs Proofs.BenchRoundProofs.
 Open Scope string_scope.
 
 (* ---- obligations on the regenerated tables of io.py ---- *)
@@ -86,15 +86,40 @@ Theorem C15_bench_read_denotes_partial : ∀ name ls, wfb ls = true → bench_re
 Proof. intros name ls Hwf Hrd. exists (bench_closed name ls). split; [done|]. by apply bench_closed_denotes. Qed.
 Print Assumptions C15_bench_read_denotes_partial.
 
-(* FULL statement for the round trip, all set orders.  Not proved as a whole: the per-line theorems cover its core (a
-   constant written as XOR(i,i)/XNOR(i,i) is read back as the constant, distinct operands are read back unchanged);
-   decided per generated circuit and recorded order by Run_C15.agree / holds. *)
+(* ---- round trip ---- *)
+(* for every lint-clean circuit without blackboxes, blackbox pins and x constants, closed and identifier-named, and for EVERY
+   choice of the set orders the writer accepts: the written line list is well-formed and its closed-form reading is the
+   circuit itself -- graph, output marks, constants (written as XOR(i,i)/XNOR(i,i)) and registry included *)
+Theorem C15_write_wf : ∀ C ord ls, lint_clean C → no_x (c_g C) → pin_free (c_g C) → closed (c_g C) → names_ok (c_g C) →
+  bench_write C ord = Ok ls → wfb ls = true.
+Proof. exact write_wf. Qed.
+Print Assumptions C15_write_wf.
+Theorem C15_write_read_closed : ∀ C ord ls, lint_clean C → no_x (c_g C) → pin_free (c_g C) → closed (c_g C) → names_ok (c_g C) →
+  bench_write C ord = Ok ls → bench_closed (c_name C) ls = C.
+Proof. exact write_read_closed. Qed.
+Print Assumptions C15_write_read_closed.
+
+(* FULL statement for the round trip, all set orders (pin_free: a registry-free circuit may still contain stray
+   bb_input/bb_output nodes, which the writer rejects).  Proved: C15_bench_roundtrip_partial = the full conclusion under the
+   extra hypothesis that the mirrored reader returns the closed form on the written lines (C15_read_is_closed_form_full at
+   that line list; decided per generated case by Run_C15.agree); the result is then the circuit itself. *)
 Definition C15_bench_roundtrip_full : Prop := ∀ C ord,
-  lint_clean C → bb_free C → inputs (c_g C) ≠ ∅ → no_x (c_g C) → closed (c_g C) → names_ok (c_g C) →
+  lint_clean C → bb_free C → inputs (c_g C) ≠ ∅ → no_x (c_g C) → pin_free (c_g C) → closed (c_g C) → names_ok (c_g C) →
   bench_write C ord ≠ BadOrder →
   ∃ ls C', bench_write C ord = Ok ls ∧ bench_read (c_name C) ls = Ok C'
     ∧ inputs (c_g C') = inputs (c_g C) ∧ outputs (c_g C') = outputs (c_g C)
     ∧ equiv_on (inputs (c_g C) ∪ outputs (c_g C)) (c_g C) (c_g C').
+Theorem C15_bench_roundtrip_partial : ∀ C ord ls,
+  lint_clean C → no_x (c_g C) → pin_free (c_g C) → closed (c_g C) → names_ok (c_g C) →
+  bench_write C ord = Ok ls → bench_read (c_name C) ls = Ok (bench_closed (c_name C) ls) →
+  ∃ C', bench_read (c_name C) ls = Ok C'
+    ∧ inputs (c_g C') = inputs (c_g C) ∧ outputs (c_g C') = outputs (c_g C)
+    ∧ equiv_on (inputs (c_g C) ∪ outputs (c_g C)) (c_g C) (c_g C').
+Proof.
+  intros C ord ls H1 H2 H3 H4 H5 Hw Hr. exists C. rewrite Hr, (write_read_closed C ord ls H1 H2 H3 H4 H5 Hw).
+  repeat split; try done; intros v Hv; exists v; split; done.
+Qed.
+Print Assumptions C15_bench_roundtrip_partial.
 
 (* ---- non-vacuity: a well-formed text with a repeated operand, a constant-producing line and two chained flops ---- *)
 Definition ex_lines := [BOutput "y"; BDff "q1" "q2"; BGate "y" "XOR" ["a"; "a"; "q1"]; BGate "k" "xnor" ["a"; "a"];
@@ -104,4 +129,14 @@ Proof. vm_compute. reflexivity. Qed.
 Example C15_ex_read : bool_decide (bench_read "top" ex_lines = Ok (bench_closed "top" ex_lines)) = true.
 Proof. vm_compute. reflexivity. Qed.
 Example C15_ex_const : bool_decide (ty (bench_graph ex_lines) "k" = Some C1 ∧ fanin (bench_graph ex_lines) "y" = {[ "q1" ]}) = true.
+Proof. vm_compute. reflexivity. Qed.
+
+(* a circuit with both constants, an output that is an input, and one legal choice of the writer's set orders *)
+Definition ex_circ : Circuit := {| c_name := "t"; c_bbs := ∅; c_g := list_to_map
+  [("a", mk_node Input true ∅); ("b", mk_node Input false ∅); ("k0", mk_node C0 false ∅); ("k1", mk_node C1 true ∅);
+   ("g", mk_node Xnor true {[ "a"; "b"; "k0" ]}); ("h", mk_node Not false {[ "g" ]})] |}.
+Definition ex_ord : word := {| o_in := ["b"; "a"]; o_out := ["g"; "a"; "k1"]; o_nodes := ["h"; "k1"; "g"; "k0"];
+  o_fi := [("g", ["k0"; "a"; "b"]); ("h", ["g"])]; o_const := "b" |}.
+Example C15_ex_round : lint_cleanb ex_circ && match bench_write ex_circ ex_ord with
+  | Ok ls => bool_decide (bench_read "t" ls = Ok (bench_closed "t" ls) ∧ bench_closed "t" ls = ex_circ) | _ => false end = true.
 Proof. vm_compute. reflexivity. Qed.
